@@ -814,6 +814,35 @@ def check_foreign_constants_in_operators(run, ix, rule='X-R15'):
 
 
 
+# --------------------------------------------------------------------------- X-R16
+def check_difference_point(run, ix, rule='X-R16'):
+    """X-R16 (fourth C38 hunt; repair of hsteps).  Numerical differentiation evaluates f at x + k*h with h = 2^-(prec+10)
+    under a raised precision of the COMPUTING context.  If x is a number of another context, x + k*h is formed by that
+    context at its own precision and h is lost: a clone's diff of an mp number returned 0.0 ("a cloned context computes
+    the same values as mp at the same precision").  Decided: in hsteps the point is re-bound from `ctx.convert(<point>)`
+    before the first expression that adds a multiple of the step to it."""
+    DIFF = 'mpmath/calculus/differentiation.py'
+    f = ix.func(DIFF, 'hsteps')
+    x = f.params[2]
+    uses = [b for b in _walk_own(f.node) if isinstance(b, ast.BinOp) and isinstance(b.op, ast.Add) and
+            isinstance(b.left, ast.Name) and b.left.id == x and any(isinstance(y, ast.Name) and y.id == 'h' for y in ast.walk(b.right))]
+    uses += [b for b in _walk_own(f.node) if isinstance(b, ast.AugAssign) and isinstance(b.target, ast.Name) and b.target.id == x]
+    if not uses:
+        raise AnalysisError('hsteps: x + k*h not found')
+    first = min(u.lineno for u in uses)
+    conv = [a for a in _walk_own(f.node) if isinstance(a, ast.Assign) and norm(a.targets[0]) == x and
+            isinstance(a.value, ast.Call) and norm(a.value.func) in ('ctx.convert', 'ctx.mpmathify') and
+            a.value.args and norm(a.value.args[0]) == x and a.lineno < first]
+    if conv:
+        run.ok(rule, 'hsteps: `%s` before the first x + k*h (line %d)' % (norm(conv[0]), first))
+    else:
+        run.fail(F(rule, DIFF, 'hsteps', uses[0] if not isinstance(uses[0], ast.AugAssign) else uses[0],
+                   'the point is used as it is given: a number of another context forms `%s` at that context\'s precision, '
+                   'where the step h = 2^-(prec+10) is lost -- for A = mp.clone(), A.diff(A.exp, mp.mpf(\'0.75\')) is 0.0 '
+                   'instead of 2.117' % norm(uses[0], 30)))
+
+
+
 # --------------------------------------------------------------------------- X-R12
 def check_matrix_entry_conversion(run, ix):
     """X-R12.  The numbers a matrix holds belong to the matrix's context: an mpf computes with the precision of ITS
@@ -1234,6 +1263,8 @@ def run(run, ix, tier):
     check_contextual_constants(run, ix)
     run.rule('X-R15', floor=4, desc='the operator layer does not read the _mpf_ of a constant of another context')
     check_foreign_constants_in_operators(run, ix)
+    run.rule('X-R16', floor=1, desc='numerical differentiation converts its point to the computing context')
+    check_difference_point(run, ix)
     run.rule('X-R12', floor=3, desc='matrix entries taken over without conversion come from a matrix of the same context')
     check_matrix_entry_conversion(run, ix)
     run.stats.update({'mutated_context_attributes': n2, 'allocation_sites': n4,
